@@ -390,3 +390,81 @@ def run_f(prog, res, floor=1):
                                 "an untimed mutex-lock! / thread-join! reports a timeout that was never asked for"
                                 % (fn.name, fn.vars[vid]["n"]), unit=fn.unit.display))
     return stat
+
+
+# ------------------------------------------------------------------ C11.g
+def run_g(prog, res, floor=6):
+    """a wake-up decides both flags: the lock / unlock-and-wait / join retry loops of interface.scm ask
+    `thread-timeout?` right after the thread is resumed, so every place that ends a thread's wait
+    (stores 0 to its waitp flag) also defines its timeoutp flag in the same straight-line region - 0 when
+    the awaited event happened, 1 when the deadline passed.  A wake-up that leaves the flag alone hands the
+    resumed thread the answer of its *previous* wait: a signalled condition-variable wait or a granted lock
+    is reported as timed out.  Accepted alternative (not today's code): every pausing primitive whose resume
+    consults the flag clears it itself before it sets waitp."""
+    from cfg import elem_positions, enclosing_elem
+    stat = res.stat("C11.g", "every store that ends a thread's wait (waitp = 0) is accompanied, in the same basic block, by a store "
+                    "that defines its timeoutp flag", floor=floor)
+
+    def ctx_store(fn, nd, field):
+        """object text if nd is `X->value.context.<field> = ...`"""
+        if nd["k"] == "bin" and nd["o"] == "=":
+            l = fn.strip(nd["c"][0])
+            if fn.nodes[l]["k"] == "mem" and fn.nodes[l].get("o") == field:
+                o2, path = fn.mempath(l)
+                if path[:2] == ["value", "context"]:
+                    return fn.txt(o2)
+        return None
+
+    def rhs_const(fn, nd):
+        r = fn.strip(nd["c"][1])
+        while fn.nodes[r]["k"] == "bin" and fn.nodes[r]["o"] == "=":      # a = b = 0
+            r = fn.strip(fn.nodes[r]["c"][1])
+        return fn.const_val(r)
+    fns = [fn for fn in prog.all_funcs() if fn.unit.name == "threads.c" and fn.blocks]
+    # alternative discipline: all pausing primitives (other than plain sleep, whose resume never asks) clear the flag
+    pausers, clearing = [], []
+    for fn in fns:
+        pos = None
+        for i, nd in enumerate(fn.nodes):
+            who = ctx_store(fn, nd, "waitp")
+            if who is None or rhs_const(fn, nd) != 1 or fn.name == "sexp_thread_sleep":
+                continue
+            pos = pos or elem_positions(fn)
+            p = enclosing_elem(fn, i, pos)
+            ok = False
+            for j, n2 in enumerate(fn.nodes):
+                if ctx_store(fn, n2, "timeoutp") == who:
+                    q = enclosing_elem(fn, j, pos)
+                    if p is not None and q is not None and q[0] == p[0] and q[1] <= p[1]:
+                        ok = True
+            pausers.append((fn.name, fn.where(i)))
+            if ok:
+                clearing.append((fn.name, fn.where(i)))
+    cleared_at_pause = bool(pausers) and len(clearing) == len(pausers)
+    for fn in fns:
+        pos = None
+        for i, nd in enumerate(fn.nodes):
+            who = ctx_store(fn, nd, "waitp")
+            if who is None or rhs_const(fn, nd) != 0:
+                continue
+            pos = pos or elem_positions(fn)
+            p = enclosing_elem(fn, i, pos)
+            stat.sites += 1
+            stat.obligations += 1
+            ok = cleared_at_pause
+            for j, n2 in enumerate(fn.nodes):
+                if ctx_store(fn, n2, "timeoutp") == who:
+                    q = enclosing_elem(fn, j, pos)
+                    if p is not None and q is not None and q[0] == p[0]:
+                        ok = True
+            if ok:
+                stat.discharged += 1
+                stat.sample({"function": fn.name, "thread": who, "where": fn.where(i)}, limit=8)
+            else:
+                res.add(Finding("C11", "C11.g.wake-leaves-timeout-flag", fn.name, "waitp of %s" % who, fn.where(i),
+                                "%s ends the wait of `%s` (waitp = 0) without defining its timeoutp flag: mutex-lock!, "
+                                "mutex-unlock! with a condition variable and thread-join! ask thread-timeout? as soon as the "
+                                "thread is resumed, so the flag left by an earlier timed wait makes a wait that was signalled / "
+                                "granted report a timeout" % (fn.name, who), unit=fn.unit.display))
+    stat.sample({"pausing_sites": len(pausers), "pausing_sites_clearing_timeoutp": len(clearing)})
+    return stat
